@@ -309,6 +309,10 @@ def variant_independent(prog, key):
             b = bound(mid)
             return Tup((Ref(("val", mk([cut(nf(s), None, b)]))), Ref(("val", mk([cut(nf(s), b, None)])))))
 
+        def str_split_off(self, m, st, s, at):
+            b = bound(at)
+            return mk([cut(nf(s), None, b)]), mk([cut(nf(s), b, None)])
+
         def replace_range(self, m, st, s, rng, content, callee):
             lo, hi = rng_bounds(m, st, rng)
             atoms = nf(s)
